@@ -125,4 +125,21 @@ mod harness {
         let o = s.opposite();
         kani::assert(o != s && o.opposite() == s, "Side.opposite.is_the_other_side");
     }
+
+    /// C02: MatchResult::add_transaction keeps remaining = initial (-) quantity, saturating; completion flag exact
+    #[kani::proof]
+    #[kani::unwind(3)]
+    fn match_result_add_transaction() {
+        use pricelevel::{MatchResult, Transaction};
+        let initial: u64 = kani::any();
+        let q: u64 = kani::any();
+        let mut r = MatchResult::new(OrderId::from_u64(1), initial);
+        let t = Transaction { transaction_id: uuid::Uuid::nil(), taker_order_id: OrderId::from_u64(1), maker_order_id: OrderId::from_u64(2),
+                              price: kani::any(), quantity: q, taker_side: any_side(), timestamp: kani::any() };
+        r.add_transaction(t);
+        kani::assert(r.remaining_quantity == initial.saturating_sub(q), "MatchResult.add_transaction.remaining_reduced_saturating");
+        kani::assert(r.is_complete == (r.remaining_quantity == 0), "MatchResult.add_transaction.complete_iff_nothing_remains");
+        kani::assert(r.transactions.len() == 1, "MatchResult.add_transaction.appends");
+        kani::assert(q > initial || r.remaining_quantity as u128 + q as u128 == initial as u128, "MatchResult.add_transaction.remaining_is_initial_minus_sum");
+    }
 }
